@@ -11,9 +11,11 @@ from harness import c10_gen, c10_check, c10_model, ops_common as oc
 
 PROP = 'C10'
 MODEL_MODULES = ['TenpyModel.Util.J', 'TenpyModel.Ops.Sym', 'TenpyModel.Ops.Terms', 'TenpyModel.Ops.Graph', 'TenpyModel.Ops.GraphSpec',
-                 'TenpyModel.Ops.Bond', 'TenpyModel.Ops.Model', 'TenpyModel.Ops.Dense']
+                 'TenpyModel.Ops.Bond', 'TenpyModel.Ops.Model', 'TenpyModel.Ops.Dense',
+                 'TenpyModel.C10.ExtMPO', 'TenpyModel.C10.ExtOps']
 PROPS_MODULES = ['TenpyModel.C10.Props',
-                 'TenpyModel.C10.Props2']
+                 'TenpyModel.C10.Props2',
+                 'TenpyModel.C10.PropsExt']
 LEAN_MODULES = PROPS_MODULES
 LEVEL = 'proof'
 BUDGET = {'quick': 200, 'thorough': 1500}
@@ -276,6 +278,9 @@ def run(ctx):
     n_api = 80 if ctx.quick else 1200
     run_cases(ctx, c10_api.gen_cases(ctx.sub_rng('api'), n_api), True, res)
     res.extra['api_scenarios'] = n_api
+    # extension round: MPOGraph -> MPO (grids, leg charges) and group_sites / enlarge / extract_segment / sort_legcharges
+    from harness import c10_ext
+    c10_ext.run(ctx, res)
     res.extra['anchor_coverage_note'] = ANCHOR_COVERAGE_NOTE
     return res
 
